@@ -112,7 +112,7 @@ PROPS = {
             "text": "Theorems default_options_have_templates, shipped_languages_have_all_templates, every_accepted_method_exists, taxable_types_have_a_sheet, files_are_reports; "
                     "every generated valid input x supported option tuple must exit 0 and write exactly the country's reports (oracle), and exit status / file list must agree with the Lean CLI model.",
             "design_ref": "DESIGN.md §3 C16", "partial": "failures inside ezodf/lxml/babel or the file system (disk full, permissions) cannot be exhibited by the model; totality of the generator models is validated by correspondence, not yet proved"},
-    "C17": {"streams": [S("cli", 16, 600, ["exit", "files"], parallel=6)], "rule": CLI_RULE + "; C17: each case is re-run as a variant (second identical run, stale output directory, PYTHONHASHSEED=1 vs 2 in fresh interpreters, asset alone vs together)",
+    "C17": {"streams": [S("cli", 30, 900, ["exit", "files"], parallel=6)], "rule": CLI_RULE + "; C17: each case is re-run as a variant (second identical run, stale output directory, PYTHONHASHSEED=1 vs 2 in fresh interpreters, asset alone vs together)",
             "assumptions": [],
             "technique": "Lean 4 proof: time-sorted views are invariant under row permutation when timestamps are distinct; an asset's report rows do not depend on other assets' row dictionary; the model is a pure function; monitored variants of real runs",
             "text": "Theorems row_order_irrelevant, asset_rows_independent_of_other_assets; real runs repeated under four kinds of variation must produce identical reports (oracle).",
